@@ -200,3 +200,10 @@ Proof.
   intro H. destruct (stog_netlist_builds nl dw dh r H) as [eqs E]. exists eqs. split; [exact E|].
   now apply legal_iff.
 Qed.
+
+(* the limit may be given as r or 1/r: the test is the same (so replacing thin(max_ratio, 1)
+   by thin(1/max_ratio, 1) in the code changes nothing) *)
+Lemma thin_ratio_inverse r : 0 < r -> thinR (1 / r) 1 = thinR r 1.
+Proof. intro H. unfold thinR. field. nra. Qed.
+Lemma thin_sym w h : thinR w h = thinR h w.
+Proof. unfold thinR. rewrite (Rmult_comm w h), (Rplus_comm (w * w)). reflexivity. Qed.
